@@ -103,6 +103,11 @@ WildRangeCases == {Case("range", "f:" \o Open(inc) \o WildStrs[i].text \o " TO "
                         [form |-> "range", lo |-> WildStrs[i], hi |-> Strs[5], loinc |-> inc, hiinc |-> inc], <<WildStrs[i], Strs[5]>>, "str",
                         "f:" \o Open(inc) \o Strs[1].text \o " TO " \o WildStrs[i].text \o Close(inc)) : i \in DOMAIN WildStrs, inc \in BOOLEAN}
 
+\* every string of the pool at least once in an equality and as a lower range bound, whatever the tier thins
+AllStrCases == {Case("cmp", "f:" \o Strs[i].text, [form |-> "cmp", op |-> "=", v |-> Strs[i]], <<Strs[i]>>, "str", "f:" \o Strs[(i % Len(Strs)) + 1].text) : i \in DOMAIN Strs}
+               \cup {Case("range", "f:[" \o Strs[i].text \o " TO " \o Strs[2].text \o "]", [form |-> "range", lo |-> Strs[i], hi |-> Strs[2], loinc |-> TRUE, hiinc |-> TRUE],
+                          <<Strs[i], Strs[2]>>, "str", "f:[" \o Strs[1].text \o " TO " \o Strs[i].text \o "]") : i \in DOMAIN Strs}
+
 LikeCases == {Case("like", "f:" \o Pats[i].text, [form |-> "like", pat |-> Pats[i]], <<Pats[i]>>, "str",
                    "f:" \o Pats[(i % Len(Pats)) + 1].text) : i \in DOMAIN Pats}
 
@@ -114,7 +119,7 @@ BigCases == {Case("big", "f" \o OpSym(op) \o Bigs[i].text, [form |-> "big"], <<B
                   Case("big", "f:(" \o Bigs[1].text \o " OR 5)", [form |-> "big"], <<Bigs[1], Ints[3]>>, "num", "")}
 All == BigCases \cup CmpCases("int") \cup CmpCases("float") \cup CmpCases("str")
        \cup RangeCases("int") \cup RangeCases("float") \cup RangeCases("str")
-       \cup ListCases("int") \cup ListCases("str") \cup LikeCases \cup MixedListCases \cup WildCmpCases \cup WildRangeCases \cup MixedRangeCases
+       \cup ListCases("int") \cup ListCases("str") \cup LikeCases \cup MixedListCases \cup WildCmpCases \cup WildRangeCases \cup MixedRangeCases \cup AllStrCases
 Cases == LET s == SetToSeq(All) IN [i \in DOMAIN s |-> [s[i] EXCEPT !.kind = "leaf"] @@ [id |-> i]]
 
 VARIABLE x
